@@ -7,7 +7,7 @@ from mc.core import Acc
 
 ID = "C15"
 RULE = ("E-INPUT: every ordered pair of distinct domain instants from a set of datetimes spanning 1900..2200 (epoch neighbours, "
-        "leap day, year ends, ms-resolution instants: 40 instants, thorough 119; + a seeded instant), plus domains of 1 ms .. 61 s at every instant, x 3 ranges (scale built domain-then-range, range-then-domain, or by re-domaining a live scale, in rotation) x query instants "
+        "leap day, year ends, ms-resolution instants: 40 instants, thorough 408; + a seeded instant), plus domains of 1 ms .. 61 s at every instant, x 3 ranges (scale built domain-then-range, range-then-domain, or by re-domaining a live scale, in rotation) x query instants "
         "(end points, 5 interior fractions, 4 exterior points) through the real TimeScale. Oracle: exact affine map on naive "
         "epoch milliseconds (rationals); invert within 1 ms inside the domain; agreement with LinearScale on the oracle's "
         "milliseconds. Non-trivial: query strictly inside or outside the domain.")
@@ -22,6 +22,8 @@ MORE = [datetime(1900 + 11 * k, 1 + (5 * k) % 12, 1 + (7 * k) % 28, (3 * k) % 24
         for k in range(1, 27)]
 DENSE = [datetime(1900, 1, 1) + timedelta(days=1373 * k, hours=(5 * k) % 24, minutes=(17 * k) % 60, seconds=(29 * k) % 60,
                                            milliseconds=(313 * k) % 1000) for k in range(1, 80)]
+DENSE += [datetime(1900, 1, 1) + timedelta(days=367 * k, hours=(7 * k) % 24, minutes=(31 * k) % 60, seconds=(43 * k) % 60,
+                                            milliseconds=(577 * k) % 1000) for k in range(1, 290)]
 RANGES = [[0, 1], [0, 360], [500, -500]]
 FRACS = [F(1, 2), F(1, 3), F(1, 10), F(9, 10), F(999, 1000)]
 EXT = [F(-1), F(2), F(-1, 10), F(4)]
